@@ -494,7 +494,20 @@ func vCertgenRequest(method, target, pubkey string, duration *string, extra map[
 func (w *vWorld) issuer() string { return "https://" + vHostIdentity + vHTTPAddress }
 
 // vSignJWT signs arbitrary claims with an arbitrary key/alg (harness side, go-jose directly).
+// vNormaliseClaims turns integral float64 values (as produced by decoding into
+// a map) back into integers, so that re-signed claims keep their JSON shape.
+func vNormaliseClaims(m map[string]interface{}) {
+	for k, v := range m {
+		if f, ok := v.(float64); ok && f == float64(int64(f)) {
+			m[k] = int64(f)
+		}
+	}
+}
+
 func vSignJWT(key crypto.Signer, claims interface{}) string {
+	if m, ok := claims.(map[string]interface{}); ok {
+		vNormaliseClaims(m)
+	}
 	alg, err := publicToPreferedJoseSigAlgo(key.Public())
 	if err != nil {
 		panic(err)
